@@ -330,6 +330,18 @@ theorem writer_switch_off_keeps (cfg : Cfg) (prev : Option Nat) (r : Record) :
     ∀ t c, c.phased = true → lookupPhase cfg.mav t r.pos = none → updateCallX false cfg t r c = (c, none) :=
   ⟨fun h => by rw [writeRecordX_false_unreached cfg prev r h], fun t c h1 h2 => updateCallX_false_keeps cfg t r c h1 h2⟩
 
+/-- **F65 witness** (keep mode, `remove_existing_phasing=False`, as haplotagphase uses the writer): the input call is HP-phased
+    (`0/1`, `HP=5-2,5-1`, e.g. written by `phase --tag HP`); tagging it with PS as coded leaves HP next to the new phased GT/PS —
+    both decoders fire and the reader raises `MixedPhasingError` on the written record; after `fixes/F65.patch`
+    (`writeRecordXF`) only the new statement decodes. -/
+theorem f65_witness :
+    let c : Call := ⟨some [some 0, some 1], false, [("HP", .hp [(5, 2), (5, 1)])]⟩
+    let r : Record := ⟨"s", 10, "A", ["C"], ["GT", "HP"], [("A", c)]⟩
+    (readChrom false none none [(writeRecordX false (f4Cfg .PS true) none r).record] = .error .mixed) ∧
+    ((readChrom false none none [(writeRecordXF (f4Cfg .PS true) none r).record]).toOption.map (fun x => x.2.map rowPhasesF) =
+      some [(10, [some ⟨some 11, [some 1, some 0]⟩])]) := by
+  constructor <;> rfl
+
 /-- **read_written_chrom**.  Reading back what `write` (current code, removal on) wrote for one chromosome: for ANY
     position-sorted input — duplicate positions, records without or with several ALT alleles, non-SNVs under
     `--only-snvs`, calls carrying phased GT / PS / HP in any combination — the reader raises no error (no
